@@ -19,7 +19,10 @@ def outside_unchanged(cols):
             "cell(result, i, j) == old(cell(data, i, j)))))" % notcol)
 
 
-INPUT_KEPT = "forall(i, 0, mrows(data), forall(j, 0, mcols(data), cell(data, i, j) == old(cell(data, i, j))))"
+SAME = ("C15,C20", "same_container(result, data)")
+# C15: the input is left unchanged and the result is a new object that does not share storage with it
+INPUT_KEPT = ("C15,C20", "forall(i, 0, mrows(data), forall(j, 0, mcols(data), cell(data, i, j) == old(cell(data, i, j)))) and "
+              "unchanged(mrows(data)) and unchanged(mcols(data)) and not shares_cells(result, data)")
 
 
 def register(R):
@@ -29,7 +32,7 @@ def register(R):
     R.contract(FM + "FeatureShiftInjector.__call__", tags=("C20",),
                params={"data": "Data2", "from_index": "Int", "to_index": "Int", "col": "Int", "shift_factor": "Real", "alpha": "Real"},
                requires=WINDOW + ["valid_col(data, col)"],
-               ensures=["same_container(result, data)", outside_unchanged(["col"]),
+               ensures=[SAME, outside_unchanged(["col"]),
                         # inside the window: the column shifted by shift_factor * (alpha + window mean)
                         "forall(i, from_index, to_index, cell(result, i, colidx(data, col)) == old(cell(data, i, colidx(data, col))) + "
                         "(alpha + seq_mean(old(mcol(data, from_index, to_index, colidx(data, col))))) * shift_factor)",
@@ -38,7 +41,7 @@ def register(R):
     R.contract(FM + "FeatureSwapInjector.__call__", tags=("C20",),
                params={"data": "Data2", "from_index": "Int", "to_index": "Int", "col_1": "Int", "col_2": "Int"},
                requires=WINDOW + ["valid_col(data, col_1)", "valid_col(data, col_2)"],
-               ensures=["same_container(result, data)", outside_unchanged(["col_1", "col_2"]),
+               ensures=[SAME, outside_unchanged(["col_1", "col_2"]),
                         "forall(i, from_index, to_index, cell(result, i, colidx(data, col_1)) == old(cell(data, i, colidx(data, col_2))) and "
                         "cell(result, i, colidx(data, col_2)) == old(cell(data, i, colidx(data, col_1))))",
                         INPUT_KEPT],
@@ -46,7 +49,7 @@ def register(R):
     R.contract(LM + "LabelSwapInjector.__call__", tags=("C20",),
                params={"data": "Data2", "from_index": "Int", "to_index": "Int", "target_col": "Int", "class_1": "Real", "class_2": "Real"},
                requires=WINDOW + ["valid_col(data, target_col)"],
-               ensures=["same_container(result, data)", outside_unchanged(["target_col"]),
+               ensures=[SAME, outside_unchanged(["target_col"]),
                         "forall(i, from_index, to_index, cell(result, i, colidx(data, target_col)) == "
                         "swap_class(old(cell(data, i, colidx(data, target_col))), class_1, class_2))",
                         INPUT_KEPT],
@@ -58,7 +61,7 @@ def register(R):
                params={"data": "Data2", "from_index": "Int", "to_index": "Int", "target_col": "Int", "class_1": "Real", "class_2": "Real",
                        "new_class": "Real"},
                requires=WINDOW + ["valid_col(data, target_col)"],
-               ensures=["same_container(result, data)", outside_unchanged(["target_col"]),
+               ensures=[SAME, outside_unchanged(["target_col"]),
                         "forall(i, from_index, to_index, cell(result, i, colidx(data, target_col)) == "
                         "(new_class if (old(cell(data, i, colidx(data, target_col))) == class_1 or "
                         "old(cell(data, i, colidx(data, target_col))) == class_2) else old(cell(data, i, colidx(data, target_col)))))",
@@ -83,7 +86,7 @@ def register(R):
                params={"data": "Data2", "from_index": "Int", "to_index": "Int", "col": "Int", "x0": "Real", "random_state": "None"},
                calls={RW: "contract"},
                requires=WINDOW + ["valid_col(data, col)"],
-               ensures=["same_container(result, data)", outside_unchanged(["col"]),
+               ensures=[SAME, outside_unchanged(["col"]),
                         # the added noise is a random walk: starts at x0, moves by +-1/sqrt(window length)
                         "implies(to_index > from_index, %s == x0)" % (NOISE % ("from_index", "from_index")),
                         "forall(i, from_index + 1, to_index, %s - %s == 1 / sqrt(to_index - from_index) or "
